@@ -80,15 +80,25 @@ pub fn run(tr: &mut Tr, seed: u64, paths_file: &str, ops: &str, full: bool, shar
         let cap = 4100 * 8;
         // short sessions first: the storage of a memory backend holds more than what is delivered
         // (a vector that already had a few words, a slice), and closing must leave the rest alone
-        for (i, how) in ["flush", "drop", "into_inner"].iter().enumerate() {
-            tr.reset();
-            let mut sw = TW::new(tr, cfg, cap);
-            for _ in 0..=i {
-                sw.write_bits(tr, clean(0x5A5A_5A5A_5A5A_5A5A, cfg.w.min(64)), cfg.w.min(64));
-                sw.write_bits(tr, 1, 1);
+        for how in ["flush", "drop", "into_inner"] {
+            // ... and every way of closing pads what is pending: 1, 7, 63, 64, 65, W - 1 bits after one delivered word
+            for pend in [0usize, 1, 7, 63, 64, 65, cfg.w - 1] {
+                if pend >= cfg.w {
+                    continue;
+                }
+                tr.reset();
+                let mut sw = TW::new(tr, cfg, cap);
+                let mut left = cfg.w + pend;
+                while left > 0 && !sw.dead {
+                    let k = left.min(61);
+                    sw.write_bits(tr, clean(0x5A5A_5A5A_5A5A_5A5A, k), k);
+                    left -= k;
+                }
+                if !sw.dead {
+                    sw.close(tr, how);
+                }
+                tests += 1;
             }
-            sw.close(tr, how);
-            tests += 1;
         }
         tr.reset();
         let mut w = TW::new(tr, cfg, cap);
